@@ -584,6 +584,8 @@ class ExprMixin:
             va = a.val if isinstance(a, Opt) else a
             vb = b.val if isinstance(b, Opt) else b
             return z3.Or(z3.And(ia, ib), z3.And(z3.Not(ia), z3.Not(ib), self.identical(st, va, vb)))
+        if type(a) is not type(b) and isinstance(a, (Ref, Opaque, Rec, TupleV, StrV)) and isinstance(b, (Ref, Opaque, Rec, TupleV, StrV)):
+            return z3.BoolVal(False)
         raise Unsupported(f"'is' on {type(a).__name__}, {type(b).__name__}")
 
     def eq_dispatch(self, st, a, b):
